@@ -152,11 +152,34 @@ def run(w: World, rep: Report):
             ok, why = False, 'the key-path check runs without the parent\'s plugins'
     rep.check('C05.R2', f'functions.{fi.name}|keypath-operand-tape', ok, line=cn.line, file=REL, why=why)
     # root pushed back as key directly before the check
+    # the last stack event on every way into the check is `put(root)` (statements without stack events in between)
+    def _stack_events(nd):
+        out = []
+        if nd.ast is None:
+            return out
+        for ev in node_events(nd):
+            if ev[0] == 'call' and isinstance(ev[1].func, ast.Attribute) and dotted(ev[1].func.value) == stack:
+                out.append(ev[1])
+            elif ev[0] == 'call' and isinstance(ev[1].func, ast.Name) and w.handler_call(fi, ev[1]) is not None:
+                out.append(ev[1])
+        return out
+    last, seen, todo = [], set(), [p for p, lab in cn.pred]
+    while todo:
+        nd = todo.pop()
+        if nd.id in seen:
+            continue
+        seen.add(nd.id)
+        evs = _stack_events(nd)
+        if evs:
+            last.append(evs[-1])
+        else:
+            todo += [p for p, lab in nd.pred]
     pushed = None
-    for p, lab in cn.pred:
-        pc = [c for _, c in cfg.nodes_with_call(lambda c: dotted(c.func) == f'{stack}.put') if cfg.node_of(c) is p]
-        if pc:
-            pushed = ast.unparse(pc[0].args[0])
+    if last and all(isinstance(c.func, ast.Attribute) and c.func.attr == 'put' and c.args for c in last):
+        vals = {ast.unparse(c.args[0]) for c in last}
+        pushed = vals.pop() if len(vals) == 1 else sorted(vals)
+    elif last:
+        pushed = 'not a put: ' + ast.unparse(last[0])[:40]
     ok = pushed == root_var
     rep.check('C05.R2', f'functions.{fi.name}|root-is-the-key', ok, line=cn.line, file=REL,
               why='' if ok else f'the key pushed for the key-path check is `{pushed}`, not the root')
